@@ -217,8 +217,32 @@ func randDistRows(rng *rand.Rand, tier string) [][]int {
 	for i := range base {
 		base[i] = int("ACGT"[rng.Intn(4)])
 	}
-	kind := rng.Intn(6)
+	kind := rng.Intn(7)
 	rows := make([][]int, n)
+	if kind == 6 {
+		// differences of ONE kind only, up to saturation: pyrimidine transitions (C<->T), or purine ones, per row
+		if L < 12 {
+			L = 12 + rng.Intn(20)
+			base = make([]int, L)
+			for i := range base {
+				base[i] = int("ACGT"[rng.Intn(4)])
+			}
+		}
+		for r := range rows {
+			row := append([]int{}, base...)
+			ct, ag := []int{0, 3, 6, 8, 10}[rng.Intn(5)], []int{0, 0, 1, 8}[rng.Intn(4)]
+			for i, c := range row {
+				switch {
+				case (c == 'C' || c == 'T') && rng.Intn(10) < ct:
+					row[i] = 'C' + 'T' - c
+				case (c == 'A' || c == 'G') && rng.Intn(10) < ag:
+					row[i] = 'A' + 'G' - c
+				}
+			}
+			rows[r] = row
+		}
+		return rows
+	}
 	for r := range rows {
 		row := append([]int{}, base...)
 		rate := []int{0, 1, 2, 5, 8, 10}[rng.Intn(6)] // out of 10: from identical to saturated
